@@ -555,7 +555,7 @@ func replayScan(c *Ctx, raw json.RawMessage) bool {
 	sub.Ev.DistinctNT = map[string]bool{}
 	sub.Ev.Extra = map[string]interface{}{}
 	sub.Scratch, _ = mkScratch(c.Scratch)
-	env := newScanEnv(sub, rp.Input.Mode == "cli", rp.Input.Mode == "api")
+	env := newScanEnv(sub, rp.Input.Mode != "api", rp.Input.Mode == "api")
 	var o *observed
 	if rp.Input.Mode == "api" {
 		rs, err := runAPI(env.api, []cases.ScanCase{rp.Input.Case}, 1)
@@ -564,11 +564,21 @@ func replayScan(c *Ctx, raw json.RawMessage) bool {
 		}
 		o = apiObserved(rp.Input.Case, &rs[0])
 	} else {
-		r, err := env.runCLI(rp.Input.Case, cliOpt{})
+		prog := rp.Input.Mode == "cli-progress"
+		r, err := env.runCLI(rp.Input.Case, cliOpt{Progress: prog})
 		if err != nil {
 			Infra("replay: %v", err)
 		}
 		o = &r.observed
+		if prog && (rp.Predicate == "stdout_changed_by_progress" || rp.Predicate == "progress_with_no_progress") {
+			r2, err := env.runCLI(rp.Input.Case, cliOpt{Progress: false, NoTrace: true})
+			if err != nil {
+				Infra("replay: %v", err)
+			}
+			a, _ := json.Marshal(r.JSON)
+			b, _ := json.Marshal(r2.JSON)
+			return string(a) != string(b) || r.Exit != r2.Exit || strings.Contains(r2.Stderr, "Processing")
+		}
 	}
 	jc, inRange := o.judgeCase(maxTLCInt, maxTLCInt)
 	if !inRange {
